@@ -324,6 +324,23 @@ fn case_table(out: &mut CaseOut, seed: u64, idx: u64) {
         "entries": entries.len(), "file_size": size, "approx_data_bytes": data_bytes, "filter_ranges_2KiB": ranges}));
 }
 
+/// The only way to switch filtering off (the option is mandatory) is a policy that does nothing:
+/// it returns an empty filter and lets every key through.
+#[derive(Debug)]
+struct NoFilteringPolicy;
+
+impl FilterPolicy for NoFilteringPolicy {
+    fn get_name(&self) -> String {
+        "NoFiltering".to_string()
+    }
+    fn create_filter(&self, _keys: &[Vec<u8>]) -> Vec<u8> {
+        vec![]
+    }
+    fn key_may_match(&self, _key: &[u8], _serialized_filter: &[u8]) -> Result<bool, raindb::filter_policy::FilterPolicyError> {
+        Ok(true)
+    }
+}
+
 /// The name of a policy is stored with its filter block so that a table is never consulted
 /// through filters some other policy wrote: tables are built under one policy and read under a
 /// policy of another name (sorting before or after the writer's), and every stored entry must
@@ -348,7 +365,8 @@ fn case_foreign_policy(out: &mut CaseOut, seed: u64, idx: u64) {
     let bloom = |bits: usize| -> Arc<dyn FilterPolicy> { Arc::new(BloomFilterPolicy::new(bits)) };
     let list = |name: &str| -> Arc<dyn FilterPolicy> { Arc::new(HashListPolicy { name: name.to_string() }) };
     // names sorting before and after "RainDB.BloomFilter"
-    let (writer, reader, pair): (Arc<dyn FilterPolicy>, Arc<dyn FilterPolicy>, &str) = match idx % 6 {
+    let (writer, reader, pair): (Arc<dyn FilterPolicy>, Arc<dyn FilterPolicy>, &str) = match idx % 7 {
+        6 => (Arc::new(NoFilteringPolicy), Arc::new(NoFilteringPolicy), "policy-with-empty-filters"),
         0 => (bloom(10), list("Audit.HashList"), "bloom-written/read-by-earlier-name"),
         1 => (bloom(10), list("Zeta.HashList"), "bloom-written/read-by-later-name"),
         2 => (list("Zeta.HashList"), bloom(10), "later-name-written/read-by-bloom"),
@@ -392,7 +410,12 @@ fn case_foreign_policy(out: &mut CaseOut, seed: u64, idx: u64) {
             }
         }
     }
-    if hidden > 0 {
+    if hidden > 0 && pair == "policy-with-empty-filters" {
+        out.violate(
+            "C14/table/stored-key-hidden-by-an-empty-filter",
+            json!({"ctx": ctx, "entries_hidden": hidden, "first": first}),
+        );
+    } else if hidden > 0 {
         out.violate(
             format!("C14/table/stored-key-hidden-by-a-filter-of-another-policy/{pair}"),
             json!({"ctx": ctx, "entries_hidden": hidden, "first": first}),
